@@ -23,7 +23,7 @@ theorem atom_next (ops : List Op) (hL : LexTable ops) (x : Bytes) (hx : AtomOK o
   cases hxe : x with
   | nil => exact absurd hxe hx.1
   | cons c t =>
-    have := (hx.2.1 c (by simp [hxe])).2.2
+    have := atomScan_head ops c t (hxe ▸ hx.2.2.1)
     simp only [Tok.bytes, List.head?_cons, ne_eq, Option.some.injEq]
     intro h; subst h
     rw [hL.eq61] at this; exact Bool.noConfusion this
